@@ -28,7 +28,7 @@ ALPHABET = [b"only_root", b"only_uid:1000,65534", b"exclude_uid:0", b"exclude_ui
 UIDS = [0, 1000, 65534]
 
 
-def scenario(out, chain, uid, tty, errmode=False, pre_errno=0):
+def scenario(out, chain, uid, tty, errmode=False, pre_errno=0, emptyparent=False):
     opts = [(b"output", b"file:" + out.encode() + b"/log"), (b"message_format", b"REC %{cmdline}"), (b"filter_chain", chain)]
     if errmode:
         # error logging on and a message that does not fit: a DROPPED call must still be silent
@@ -36,6 +36,10 @@ def scenario(out, chain, uid, tty, errmode=False, pre_errno=0):
         opts.pop(1)
     ini = gen.render_ini(opts)
     ops = [drv.op("x", out + "/log")] + gen.std_sinks(out) + [drv.op("C", ini)]
+    if emptyparent:
+        # the calling process's parent has an empty kernel name: the process tree cannot be read beyond it, exclude_spawns_of
+        # must pass -- and the filters behind it must still be consulted
+        ops.append(drv.op("F", b""))
     ops.append(drv.op("S", 0, "pty" if tty else "pipein"))
     if uid != 0:
         ops.append(drv.op("U", -1, -1, -1, uid, uid if uid != 1000 else 0, -1))   # real uid set, effective differs for 1000
@@ -44,9 +48,9 @@ def scenario(out, chain, uid, tty, errmode=False, pre_errno=0):
     return ops, ini
 
 
-def run_chain(d, chain, uid, tty, errmode=False, pre_errno=0):
+def run_chain(d, chain, uid, tty, errmode=False, pre_errno=0, emptyparent=False):
     """-> (logged: bool)  raises Failure on any other violation."""
-    ops, ini = scenario(d.out, chain, uid, tty, errmode, pre_errno)
+    ops, ini = scenario(d.out, chain, uid, tty, errmode, pre_errno, emptyparent)
     if any(len(l) > 1022 for l in ini.split(b"\n")):
         return None
     res = d.scenario(ops)
@@ -60,7 +64,11 @@ def run_chain(d, chain, uid, tty, errmode=False, pre_errno=0):
     q = Q[0].f
     ruid = int(q[0].split()[0])
     stdin_tty = q[6] not in (b"\x01NOTTY", b"\x01NOFD")
-    ancestors = None if int(q[10]) else [a for a in q[9].split(b"\n") if a]
+    ancestors = None
+    if not int(q[10]):
+        ancestors = q[9].split(b"\n")[:-1]
+        if b"" in ancestors:
+            ancestors = ancestors[:ancestors.index(b"")]     # unreadable from the first nameless ancestor upwards
     state = {"ruid": ruid, "stdin_tty": stdin_tty, "ancestors": ancestors}
     want = model.chain_decision(chain, state)
     dump = drv.parse_dump(res.of("G")[-1])
@@ -120,7 +128,8 @@ def strategy():
         trailing = draw(st.sampled_from([b"", b"", b";", b";;"]))
         return {"els": els, "perm": perm, "dup": dup, "trailing": trailing, "uid": draw(st.sampled_from(UIDS)),
                 "tty": draw(st.booleans()), "errmode": draw(st.sampled_from([False, False, False, True])),
-                "pre_errno": draw(st.sampled_from([0, 0, 34, 4, 2, 11, 22, 75]))}
+                "pre_errno": draw(st.sampled_from([0, 0, 34, 4, 2, 11, 22, 75])),
+                "emptyparent": draw(st.sampled_from([False] * 4 + [True]))}
     return case()
 
 
@@ -129,12 +138,13 @@ def evaluate(env, c):
     base = b";".join(c["els"]) + c["trailing"]
     em = c.get("errmode", False)
     pe = c.get("pre_errno", 0)
-    r0 = run_chain(d, base, c["uid"], c["tty"], em, pe)
+    ep = c.get("emptyparent", False)
+    r0 = run_chain(d, base, c["uid"], c["tty"], em, pe, ep)
     if r0 is None:
         return
     for name in ("perm", "dup"):
         ch = b";".join(c[name])
-        r = run_chain(d, ch, c["uid"], c["tty"], em, pe)
+        r = run_chain(d, ch, c["uid"], c["tty"], em, pe, ep)
         if r is not None and r != r0:
             # cannot happen if both agree with the model, kept as an independent metamorphic oracle
             raise Failure("decision changed under %s of the chain elements" % name, {"chain": base, "variant": ch}, key="metamorphic")
@@ -166,6 +176,10 @@ def classify(c):
         cls.append("trailing-semicolon")
     if c.get("errmode"):
         cls.append("error_logging+overlong-message")
+    if c.get("emptyparent"):
+        cls.append("nameless-parent(tree-unreadable)")
+        if any(e.startswith(b"exclude_spawns_of") for e in c["els"][:-1]):
+            cls.append("nameless-parent+exclude_spawns_of-not-last")
     return key, cls
 
 
@@ -194,7 +208,7 @@ def exhaustive_worker(args):
                     local.count(("ex",) + (key or ("t", chain, uid, tty)) if key else None, ["exhaustive"] + cls,
                                 sample={"chain": chain, "uid": uid, "stdin_tty": tty})
                     try:
-                        run_chain(d, chain, uid, tty, False, 34 if n % 3 == 0 else 0)
+                        run_chain(d, chain, uid, tty, False, 34 if n % 3 == 0 else 0, n % 5 == 0)
                     except Failure as f:
                         if len(fails) < 1:
                             fails.append({"case": {"els": c["els"], "perm": c["els"], "dup": c["els"], "trailing": b"",
